@@ -12,7 +12,7 @@ import signal
 import threading
 import time
 
-HANG_SECONDS = float(os.environ.get("VERIF_HANG_SECONDS", "20"))
+HANG_SECONDS = float(os.environ.get("VERIF_HANG_SECONDS", "60"))
 
 
 class ImplTimeout(Exception):
@@ -42,11 +42,14 @@ def watchdog(seconds=None):
         _deadline[0] = None
 
 
-def violation_on_hang(make):
-    """Decorator for oracle functions: `make(message)` builds the function's violation value."""
+def violation_on_hang(make, before=None):
+    """Decorator for oracle functions: `make(message)` builds the function's violation value;
+    `before()` (environment set-up such as importing OctoPrint) runs outside the time limit."""
     def deco(fn):
         @functools.wraps(fn)
         def wrapper(*a, **kw):
+            if before is not None:
+                before()
             try:
                 with watchdog():
                     return fn(*a, **kw)
